@@ -21,7 +21,13 @@ struct HeapBuf
 
 static void cb_raw(void *ud, OPN2_UInt8, OPN2_UInt8, OPN2_UInt8, const OPN2_UInt8 *d, size_t n) { long *c = (long *)ud; (*c)++; if(n && d) (void)d[n - 1]; }
 static void cb_note(void *ud, int, int, int, int, double) { (*(long *)ud)++; }
-static void cb_dbg(void *ud, const char *fmt, ...) { (*(long *)ud)++; (void)fmt; }
+// the debug hook formats its message, as a user's hook would: the library has to pass arguments that match its format string
+static void cb_dbg(void *ud, const char *fmt, ...)
+{
+    (*(long *)ud)++;
+    char buf[512]; va_list ap; va_start(ap, fmt); int n = vsnprintf(buf, sizeof(buf), fmt, ap); va_end(ap);
+    if(n > 0) (void)buf[0];
+}
 static void cb_loop(void *ud) { (*(long *)ud)++; }
 
 static Bytes some_music(Rng &r, bool &hostile)
@@ -88,7 +94,7 @@ static void run_case(Case &c)
     for(int i = 0; i < ncalls && g_w.violations_in_case < 10; i++)
     {
         OPN2_MIDIPlayer *d = r.chance(0.03) ? NULL : dev;
-        int fn = (int)r.below(84);
+        int fn = (int)r.below(86);
         std::string argc = "-", retc = "-";
         #define RET(cond_ok, name, rcval) do { retc = vfmt("%d", (int)(rcval)); if(!(cond_ok)) c.violation(std::string("oracle:documented-return:") + (name), vfmt("%s returned %d (args %s)", (name), (int)(rcval), argc.c_str())); } while(0)
         switch(fn)
@@ -295,6 +301,26 @@ static void run_case(Case &c)
             Bytes m; switch(r.below(6)) { case 0: m.assign(gm, gm + sizeof(gm)); break; case 1: m.assign(gs, gs + sizeof(gs)); break; case 2: m.assign(xg, xg + sizeof(xg)); break; case 3: m.assign(mv, mv + sizeof(mv)); break; case 4: m.assign(dp, dp + sizeof(dp)); break; default: { int n = r.range(0, 20); for(int j = 0; j < n; j++) m.push_back(r.byte()); } }
             if(r.chance(0.4) && !m.empty()) { int k = r.below(3); size_t p = r.below((uint32_t)m.size()); if(k == 0) m[p] = r.byte(); else if(k == 1) m.resize(p); else m.insert(m.begin() + (long)p, r.byte()); }
             ExactBuf eb(m); int rc = 0; API("opn2_rt_systemExclusive", rc = opn2_rt_systemExclusive(d, eb.p, eb.n)); if(!d) RET(rc == -1, "opn2_rt_systemExclusive", rc); else RET(rc == 0 || rc == 1, "opn2_rt_systemExclusive", rc); break;
+        }
+        case 84: case 85:
+        {   // blank-instrument phrase: a program that is blank in the selected bank and in bank 0:0 (or a bank that does not exist) is played
+            // on a melodic channel with the message hook installed: the library reports what it does through that hook
+            if(!d) break;
+            uint8_t ch = (uint8_t)r.pick((const int[]){0, 1, 5}), prog = (uint8_t)r.range(1, 127);
+            if(r.chance(0.8)) API("opn2_setDebugMessageHook", opn2_setDebugMessageHook(d, cb_dbg, &n_dbg));
+            OPN2_BankId id; id.percussive = 0; id.msb = 0; id.lsb = 0; OPN2_Bank bk; memset(&bk, 0, sizeof(bk)); int rc = -1;
+            API("opn2_getBank", rc = opn2_getBank(d, &id, OPNMIDI_Bank_Create, &bk));
+            if(rc == 0)
+            {
+                OPN2_Instrument in; memset(&in, 0, sizeof(in)); in.inst_flags = OPNMIDI_Ins_IsBlank;
+                API("opn2_setInstrument", rc = opn2_setInstrument(d, &bk, prog, &in));
+            }
+            if(r.chance(0.5)) { id.msb = (uint8_t)r.range(1, 100); id.lsb = (uint8_t)r.below(3); API("opn2_getBank", rc = opn2_getBank(d, &id, OPNMIDI_Bank_Create, &bk)); }   // exists, all blank
+            else { id.msb = (uint8_t)r.range(1, 100); id.lsb = 0; }                                                                                                      // does not exist
+            API("opn2_rt_controllerChange", opn2_rt_controllerChange(d, ch, 0, id.msb)); API("opn2_rt_controllerChange", opn2_rt_controllerChange(d, ch, 32, id.lsb));
+            API("opn2_rt_patchChange", opn2_rt_patchChange(d, ch, prog));
+            for(int j = 0, n = r.range(1, 3); j < n; j++) { int rn = 0; API("opn2_rt_noteOn", rn = opn2_rt_noteOn(d, ch, (uint8_t)r.range(30, 90), 100)); (void)rn; }
+            break;
         }
         case 82: case 83:
         {   // arpeggio phrase: auto-arpeggio on, more notes of one program than the chips have channels, a pedal, some of the
